@@ -72,6 +72,9 @@ pub fn property() -> Property {
     let fs = "float Lerp impl, value and &: lerp*(..,0) == from, precise (..,1) == to exactly, fast (..,1) within 2 eps max(|from|,|to|); every form within 2 eps (|from|+|to|)(1+|t|) of the exact from+t(to-from) (double-double reference); |fast-precise| within the sum of the bounds; clamped == unclamped at clamp01(t), & and *_inclusive_range forms bit-identical to the value forms";
     tape!("scalar-f32", fs, 64, 10_000, 1_000_000, floats::scalar_f32);
     tape!("scalar-f64", fs, 64, 10_000, 1_000_000, floats::scalar_f64);
+    let fx = "float lerp at extreme magnitudes: endpoints = moderate values * exact 2^k, from the top binade (where to - from overflows for opposite signs) down to 2^40 * MIN_POSITIVE, factor in [0,1]; precise forms (value, &, clamped, Vec4 lane) are finite, within 4 eps (|from|+|to|) of the exact lerp after exact rescaling, and hit both endpoints exactly; the fast form likewise whenever to - from is finite";
+    tape!("extreme-f32", fx, 48, 10_000, 1_000_000, floats::extreme_f32);
+    tape!("extreme-f64", fx, 48, 10_000, 1_000_000, floats::extreme_f64);
     let fv = "Vec4/Rgba/Vec3 of floats: inherent (scalar and per-lane factor) and Lerp trait forms (value, &, range), every lane within the derived bound of the exact value; exact ends";
     tape!("vec-f32", fv, 128, 5_000, 300_000, floats::vec_f32);
     tape!("vec-f64", fv, 128, 5_000, 300_000, floats::vec_f64);
